@@ -496,8 +496,39 @@ pub fn entry_points(bytes: &[u8]) -> Option<String> {
 
 /// C09 through `from_path`: a file that opens but whose reads fail (`/proc/self/mem` at offset 0: EIO; a directory:
 /// EISDIR) must give `Err` from every decoder, never a (default) map.
+/// `encode_to_path` onto a target that opens and then refuses every write (`/dev/full` behind a symbolic link, once with a UTF-8 name
+/// and once with a name that is not valid UTF-8): an error is returned, nothing panics (seed C09-t: the file name unwrapped as UTF-8
+/// on the error path only)
+fn prop_encpathfull() -> String {
+    use std::os::unix::ffi::OsStrExt;
+    if !std::path::Path::new("/dev/full").exists() {
+        return "SKIP no-/dev/full".to_owned();
+    }
+    let Ok(map) = rosu_map::from_str::<rosu_map::Beatmap>("osu file format v14\n\n[HitObjects]\n64,64,500,1,0,0:0:0:0:\n") else { return "SKIP".to_owned() };
+    let dir = scratch_dir();
+    for name in [&b"full-target.osu"[..], &b"map\xff.osu"[..], &b"\xe9t\xe9.osu"[..]] {
+        let link = dir.join(std::ffi::OsStr::from_bytes(name));
+        let _ = std::fs::remove_file(&link);
+        if std::os::unix::fs::symlink("/dev/full", &link).is_err() {
+            continue;
+        }
+        let mut m = map.clone();
+        let r = std::panic::catch_unwind(std::panic::AssertUnwindSafe(|| m.encode_to_path(&link)));
+        let _ = std::fs::remove_file(&link);
+        match r {
+            Err(_) => return format!("FAIL encode_to_path panics when every write to {:?} fails", String::from_utf8_lossy(name)),
+            Ok(Ok(())) => return format!("FAIL encode_to_path returns Ok although every write to {:?} fails", String::from_utf8_lossy(name)),
+            Ok(Err(_)) => {}
+        }
+    }
+    "OK".to_owned()
+}
+
 fn prop_pathfault(what: &str) -> String {
     use std::io::Read;
+    if what == "full" {
+        return prop_encpathfull();
+    }
     let path = match what {
         "mem" => std::path::PathBuf::from("/proc/self/mem"),
         "dir" => scratch_dir(),
